@@ -113,6 +113,7 @@ static void child_run(void *ud) {
     sim_shared->aux[0] = k;
     heap_config(ws ^ (uint64_t)k, fill, rec, 0);
     gen_world_seed = k == 0 ? 0 : (ws | 1);
+    gen_fresh_world_has_zero_surroundings = 1;
     L->m4ri_mmc_cleanup();
     size_t live0 = heap_live_count();
     uint64_t dig0 = heap_live_digest();
